@@ -91,7 +91,8 @@ func variants() []*Variant {
 		vs = append(vs, v)
 	}
 	// C13: separate-package generation
-	for _, b := range []string{"P-time", "P-cast", "P-nest", "P-oneof", "P-embed", "P-scal-S3", "P-empty", "P-nest-map"} {
+	// (P-multi, P-names, P-flags, P-mapopt carry field-addressed options in both key forms)
+	for _, b := range []string{"P-time", "P-cast", "P-nest", "P-oneof", "P-embed", "P-scal-S3", "P-empty", "P-nest-map", "P-multi", "P-names", "P-flags", "P-embed-x"} {
 		add(&Variant{Name: "sep:" + b, Prop: "C13", Base: b, Quick: b != "P-nest-map", Mut: ident})
 	}
 	// C11: field-addressed options on P-multi, both key forms
@@ -123,10 +124,10 @@ func variants() []*Variant {
 	add(&Variant{Name: "extra-message", Prop: "C12", Base: "P-multi", Quick: true, Mut: extraMessage, Structs: "B"})
 	add(&Variant{Name: "extra-dep-file", Prop: "C12", Base: "P-oneof", Quick: true, Mut: ident, Extra: []*d.FileDescriptorProto{extraDepFile()}})
 	// C15: declaration order (sort off)
-	for _, b := range []string{"P-mini", "P-oneof", "P-embed", "P-nest", "P-time"} {
+	for _, b := range []string{"P-mini", "P-oneof", "P-embed", "P-nest", "P-time", "P-embed-x", "P-mapopt"} {
 		add(&Variant{Name: "perm-reverse:" + b, Prop: "C15", Base: b, Quick: true, Mut: permute})
 	}
-	for _, b := range []string{"P-mini", "P-multi", "P-scal-S1"} {
+	for _, b := range []string{"P-mini", "P-multi", "P-scal-S1", "P-embed-x"} {
 		add(&Variant{Name: "perm-rotate:" + b, Prop: "C15", Base: b, Quick: b != "P-scal-S1", Mut: rotate})
 	}
 	add(&Variant{Name: "perm-reverse+sort:P-mini", Prop: "C15", Base: "P-mini", Quick: true, Mut: func(f *d.FileDescriptorProto, c *Config) (*d.FileDescriptorProto, *Config) {
@@ -164,6 +165,30 @@ func qualifyForSepPackage(c *Config, structPkg string) *Config {
 	}
 	q(n.TimeType)
 	q(n.DurationType)
+	// unqualified validator / plan modifier constructors live in the struct package
+	qs := func(l []string) []string {
+		out := make([]string, len(l))
+		for i, x := range l {
+			if !strings.Contains(x, ".") {
+				x = structPkg + "." + x
+			}
+			out[i] = x
+		}
+		return out
+	}
+	for k, l := range n.Validators {
+		n.Validators[k] = qs(l)
+	}
+	for k, l := range n.PlanModifiers {
+		n.PlanModifiers[k] = qs(l)
+	}
+	for k, inj := range n.InjectedFields {
+		for i := range inj {
+			inj[i].Validators = qs(inj[i].Validators)
+			inj[i].PlanModifiers = qs(inj[i].PlanModifiers)
+		}
+		n.InjectedFields[k] = inj
+	}
 	return n
 }
 
